@@ -16,7 +16,7 @@ VARIABLES l, cfg, batches, acked, recov
 vars == <<l, cfg, batches, acked, recov>>
 
 NoCfg == [prop |-> "C10", sync |-> FALSE, keys |-> <<>>]
-Init == l = 1 /\ cfg = NoCfg /\ batches = <<>> /\ acked = 0 /\ recov = <<>>
+Init == l = 1 /\ cfg = NoCfg /\ batches = <<>> /\ acked = {} /\ recov = <<>>
 
 ev == Trace[l]
 IsEvent(name) == l <= Len(Trace) /\ ev.e = name /\ l' = l + 1
@@ -33,17 +33,30 @@ Val(k, p) ==
             IN IF v = "" THEN NOTFOUND ELSE v
 Matches(dump, p) == \A k \in Keys : dump[k] = Val(k, p)
 
-Reset == IsEvent("Reset") /\ cfg' = NoCfg /\ batches' = <<>> /\ acked' = 0 /\ recov' = <<>>
+Reset == IsEvent("Reset") /\ cfg' = NoCfg /\ batches' = <<>> /\ acked' = {} /\ recov' = <<>>
 Cfg   == IsEvent("Cfg") /\ cfg' = [prop |-> ev.prop, sync |-> ev.sync, keys |-> ev.keys]
          /\ UNCHANGED <<batches, acked, recov>>
 \* the engine accepted batch number Len(batches)+1 (single client: acceptance order = call order)
 Accept == IsEvent("Accept") /\ batches' = Append(batches, ev.w) /\ UNCHANGED <<cfg, acked, recov>>
-\* the call returned: success acknowledges everything accepted so far; an error means the batch
-\* must have had no effect, so it is taken out of the accepted sequence again
+\* the call of batch number ev.b returned (calls may overlap when independent writes are issued
+\* concurrently): success acknowledges that batch; an error means it must have had no effect, so its
+\* writes are taken out of the accepted sequence (the slot stays, indices are stable)
 Ack == /\ IsEvent("Ack")
-       /\ IF ev.ok THEN acked' = Len(batches) /\ UNCHANGED batches
-                   ELSE batches' = SubSeq(batches, 1, Len(batches) - 1) /\ UNCHANGED acked
+       /\ IF ev.ok THEN acked' = acked \cup {ev.b} /\ UNCHANGED batches
+                   ELSE batches' = [batches EXCEPT ![ev.b] = <<>>] /\ UNCHANGED acked
        /\ UNCHANGED <<cfg, recov>>
+\* C09: batches that write key k; the newest acknowledged one bounds what may be lost
+Writers(k) == {b \in 1..Len(batches) : \E j \in 1..Len(batches[b]) : batches[b][j].k = k}
+ValIn(k, b) == LET j == CHOOSE i \in 1..Len(batches[b]) :
+                           batches[b][i].k = k /\ \A m \in 1..Len(batches[b]) : batches[b][m].k = k => m <= i
+               IN IF batches[b][j].v = "" THEN NOTFOUND ELSE batches[b][j].v
+AckedOK(dump) ==
+    \A k \in Keys :
+        LET ws == Writers(k)
+            la == {b \in ws : b \in acked}
+            lo == IF la = {} THEN 0 ELSE CHOOSE b \in la : \A c \in la : c <= b
+        IN \/ (lo = 0 /\ dump[k] = NOTFOUND)
+           \/ \E b \in ws : b >= lo /\ b > 0 /\ dump[k] = ValIn(k, b)
 Recovered ==
     /\ IsEvent("Recovered")
     /\ Expect(ev.open, TRUE)
@@ -51,7 +64,7 @@ Recovered ==
          IF cfg.prop = "C09"
          \* C09 speaks about acknowledged writes only: each key shows its value after the acknowledged
          \* batches, or after a later accepted (in-flight) one; atomicity of in-flight batches is C10's
-         THEN Expect(\A k \in Keys : \E p \in acked..Len(batches) : ev.dump[k] = Val(k, p), TRUE)
+         THEN Expect(AckedOK(ev.dump), TRUE)
          ELSE IF cfg.prop = "C10"
          THEN Expect(\E p \in 0..Len(batches) : Matches(ev.dump, p), TRUE)
          ELSE TRUE   \* C11 judges only what happens after recovery (Post)
